@@ -133,6 +133,12 @@ def build(case):
             s.wm = np.eye(s.wm.shape[0]) * [1.0, 0.005, 0.25, 3.0][p % 4]
             if s.wmi_file is not None:
                 s.wmi_file = np.linalg.inv(s.wm)
+        if case['seed'][2] % 8 == 6 and p % 2 == 1:
+            # a Kilosort-2 templates_ind.npy whose rows are NOT 0 1 2 ... lies in the folder (phylib reads templates.npy as dense)
+            import io as _io
+            bio_ = _io.BytesIO()
+            np.save(bio_, np.tile(np.arange(s.n_channels)[::-1], (s.n_templates, 1)).astype(np.float64))
+            s.extra_files['templates_ind.npy'] = bio_.getvalue()
         if rng.random() < 0.25:
             s.notes['fortran'] = 'all'            # column-major .npy files (MATLAB exporters), in any probe incl. the first
         if p == nonfinite:
